@@ -105,14 +105,20 @@ theorem rename_eq_iff_name_eq (o : Opts) (ns : List String) (hne : ∀ n ∈ ns,
     · intro h; exact key.mp (short_label_inj h)
     · intro h; rw [key.mpr h]
 
-/-- **`export_names_injective`** (holds since da27432, no hypothesis on the names): distinct values of a graph
-never share a Python variable, under every option tuple. -/
+/-- **`export_names_injective`** (holds since da27432): distinct values of a graph never share a Python variable,
+under every option tuple, for requests made from the empty exporter state `{}`.  Hypotheses: `hne` — no name is `""`
+(the empty name is an absent input and never reaches the renamer) — and `hnd` — the list is duplicate-free (it lists
+*distinct* values; a repeated name is the same value).  What is *not* assumed is anything about how the names clean
+up (the pre-da27432 statement needed `cleanup` injective on the names). -/
 theorem export_names_injective (o : Opts) (ns : List String) (hne : ∀ n ∈ ns, n ≠ "") (hnd : ns.Nodup)
     (i j : Nat) (hi : i < ns.length) (hj : j < ns.length)
     (h : (translateVars o {} ns).1[i]? = (translateVars o {} ns).1[j]?) : i = j :=
   (List.getElem_inj hnd).mp ((rename_eq_iff_name_eq o ns hne i j hi hj).mp h)
 
-/-- … and the uniquified names are never empty and never a Python keyword (`rename=False`). -/
+/-- … and the uniquified names (`rename=False`, non-empty ONNX names, empty start state) are never the empty text and
+never the text `None` (which is how an absent input is printed).  **Despite its name this theorem does not prove
+"not a keyword"**: that is `cleanup_ident` for the unsuffixed candidate and is not proved for suffixed candidates
+(`kw_1` is never a keyword, but no theorem here says so).  The name is kept because shared documents list it. -/
 theorem export_names_not_keywords (o : Opts) (hr : o.rename = false) (ns : List String) (hne : ∀ n ∈ ns, n ≠ "") :
     ∀ x ∈ (translateVars o {} ns).1, x ≠ "" ∧ x ≠ "None" := by
   rw [translateVars_uniq o hr ns {} plain_empty]
@@ -242,7 +248,8 @@ theorem nonfinite_and_empty_not_inlined (dtype : Nat) (dims : List Nat) (finite 
       · rw [h3] at h; cases h
       · rw [h3] at h; simp at h; omega
 
-/-- `Less` is never printed as an operator (the table's key is the non-existent `"Lesser"`), every option tuple. -/
+/-- A fact about the operator table only (`decide`): it has no key `"Less"` and has the non-existent `"Lesser"`; so
+`sugarOf` never sugars a `Less` node.  (The table does not depend on the options.) -/
 theorem less_not_sugared : opsTable.lookup "Less" = none ∧ opsTable.lookup "Lesser" = some "<" := by decide
 
 /-- **`inline_const_repr_partial`** (INT64 scalars): the text `str(int)` parses back to the same integer, for
@@ -313,7 +320,8 @@ theorem inline_const_int64_guard (dims : List Nat) (vals : List Int) (lit : Stri
 
 example : ([4, -4] : List Int).length = ([2] : List Nat).foldl (· * ·) 1 := by decide
 
-/-- Why non-finite constants must not be printed with `str()` (pre-fix behaviour, C13-NANINF):
+/-- (Records two facts; it does not refute a stated theorem — the suffix `_prefix_refuted` only marks "pre-fix
+behaviour".)  Why non-finite constants must not be printed with `str()` (pre-fix behaviour, C13-NANINF):
 `str(np.float32('nan'))`, `str(np.float32('inf'))` are the bare words `nan`, `inf` — Python identifiers and not
 keywords, hence names, not literals. -/
 theorem inline_const_repr_naninf_prefix_refuted :
@@ -436,10 +444,12 @@ theorem inline_const_loop_body_scope_fixed :
               "L2 call so2 = opset18.Add(s2,t|)", "L2 assign s2 = so2", "L1 assign y = s2", "L1 return y"] := by
   decide +kernel
 
-/-- **`if_constants_scoped`** (e0cdb9e, for every If node): whatever the two branches inline, the table of inlined
-constants after `_translate_if` is the table before it — for every option tuple, every node translator `recIn` (any
-nesting), every state, and also when the If is dropped as dead.  Hence no constant of a branch is visible in the
-other branch (the else-branch starts from the saved table) or after the statement. -/
+/-- **`if_constants_scoped`** (e0cdb9e, for every If node): the table of inlined constants after a successful
+`_translate_if` equals the table before it — for every option tuple, every node translator `recIn` (any nesting), every
+depth, every state, and also when the If is dropped as dead.  **This is all the theorem says** (nothing a branch inlines
+survives the statement).  That the else-branch starts from the saved table, i.e. does not see the then-branch's
+constants, is how `translateIf` is *defined* (tied to the real exporter by the correspondence runs) and is shown on
+the concrete witness `inline_const_sibling_scope_fixed`; it is not a consequence of this theorem. -/
 theorem if_constants_scoped (o : Opts) (recIn : Node → St → R) (d : Nat) (n : Node) (indent : Nat) (st : St)
     (lines : List String) (st' : St) (h : translateIf o recIn d n indent st = .ok (lines, st')) :
     st'.constants = st.constants := by
@@ -553,7 +563,8 @@ theorem loop_break_with_initial_condition_witness :
               "L2 assign s_in = s_out", "L1 assign y = s_in", "L1 return y"] := by
   decide +kernel
 
-/-- C13-DEAD-IF (fixed by 0215218): an If none of whose outputs is read anywhere is dropped from the text. -/
+/-- C13-DEAD-IF-DIRECT (fixed by 0215218): an If none of whose outputs is read anywhere is dropped from the text.
+(The *open* finding C13-DEAD-IF is the transitive remainder, `dead_if_transitive_witness`.) -/
 theorem dead_if_dropped_fixed :
     (exportModel ⟨false, false, false, false⟩ 3 ⟨"g", none, [("", 18)],
         .mk ["x", "c"] ["y"] [] 0
@@ -732,7 +743,8 @@ theorem sugar_roundtrip_table (imports : List (String × String)) (out a b : Str
   have h := (sugar_table_asymmetry p hp).mpr hne
   simp only [stmtToNode, h, Option.getD_some]
 
-/-- **Sugar never carries attributes back**: whatever the node had, the node read from `out = a sym b` has none —
+/-- (Definitional: holds by `rfl` from `stmtToNode`, the model of the converter's reading — its content is the tie of
+`stmtToNode` to the real converter, not a proof.)  **Sugar never carries attributes back**: whatever the node had, the node read from `out = a sym b` has none —
 the second asymmetry (a sugared operator whose attributes matter, e.g. `Mod`/`fmod` if `%` were added to the
 table, silently loses them); `straightModel` therefore requires sugared nodes to have no attributes. -/
 theorem sugar_reads_back_without_attributes (imports : List (String × String)) (out sym a b : String) :
@@ -894,7 +906,8 @@ theorem function_names_injective (o : Opts) (d : Nat) (f : FunctionP) (st0 : St)
 reserved module-level names -/
 def fnStart (f : FunctionP) : St := { uniq := reservedTable (reservedNames [] [f.opsets] [f.domain]) }
 
-/-- `exportFunction` is `_translate_function` run from `fnStart` -/
+/-- (Definitional, `rfl`: it only names the start state so that `exportFunction_names_injective` can be stated.)
+`exportFunction` is `_translate_function` run from `fnStart` -/
 theorem exportFunction_from_start (o : Opts) (d : Nat) (f : FunctionP) :
     exportFunction o d f = (translateFunction o d f (fnStart f)).map (·.1) := rfl
 
